@@ -143,7 +143,11 @@ func (g *G) sizedType(depth int) *am.Type {
 	case 7:
 		return g.vecType(false)
 	case 8:
-		return am.A(uint64(g.rng("alen", 0, 5)), g.sizedType(depth-1))
+		n := uint64(g.rng("alen", 0, 5))
+		if g.chance("longarray", 1, 10) {
+			n = uint64(g.rng("alenlong", 8, 24)) // two-digit indices
+		}
+		return am.A(n, g.sizedType(depth-1))
 	case 9, 10:
 		n := g.rng("nfields", 0, 4)
 		var fs []*am.Type
